@@ -45,3 +45,8 @@ class CFunction(object):
     """reference to a C function of the translation unit: called by contract `c:<name>`"""
     def __init__(self, name):
         self.name = name
+
+
+def __elemref(base, offset):
+    """&base[offset]: address of a byte inside a buffer - an abstract location (base, offset)"""
+    return (base, offset)
